@@ -529,10 +529,13 @@ pub struct RunConfig {
     pub keep_logs: bool,
     /// consecutive polls without an idle executor after which the network is pumped anyway (0 = only when idle)
     pub busy_pump_steps: u64,
+    /// datagrams sent in one execution after which it is ended like a step-cap overrun (message storms: two endpoints
+    /// answering each other without the clock advancing would otherwise only end by exhausting memory)
+    pub max_datagrams: u64,
 }
 impl Default for RunConfig {
     fn default() -> Self {
-        RunConfig { horizon_ms: 20_000, step_cap: 400_000, fragment_size: 1344, shared_multicast: false, fates: FATES_QUICK, keep_logs: true, busy_pump_steps: BUSY_PUMP_STEPS }
+        RunConfig { horizon_ms: 20_000, step_cap: 400_000, fragment_size: 1344, shared_multicast: false, fates: FATES_QUICK, keep_logs: true, busy_pump_steps: BUSY_PUMP_STEPS, max_datagrams: 200_000 }
     }
 }
 
@@ -753,7 +756,7 @@ where
     let result = std::panic::catch_unwind(std::panic::AssertUnwindSafe(|| -> End {
         loop {
             steps += 1;
-            if steps > cfg.step_cap {
+            if steps > cfg.step_cap || (steps % 1024 == 0 && with(|w| w.net.stats_sent) > cfg.max_datagrams) {
                 return End::StepCap;
             }
             ex.absorb();
